@@ -25,6 +25,7 @@ import (
 var verifRefHashHex = "000102030405060708090a0b0c0d0e0f"
 
 type verifModelHasher struct {
+	bogus    bool // the digest's hash is the hash of NO content (a digest that was made up)
 	ref      []byte
 	expected []byte
 	written  []byte
@@ -38,7 +39,7 @@ func (h *verifModelHasher) Write(p []byte) (int, error) {
 
 func (h *verifModelHasher) Sum(b []byte) []byte {
 	h.sums++
-	same := len(h.written) == len(h.ref)
+	same := len(h.written) == len(h.ref) && !h.bogus
 	if same {
 		for i := range h.ref {
 			same = vnd.And(same, h.written[i] == h.ref[i])
@@ -63,18 +64,24 @@ func (h *verifModelHasher) BlockSize() int { return 64 }
 
 // verifRef is a reference object with its digest and the installed model hasher.
 type verifRef struct {
+	bogus   bool
 	n       int
 	data    []byte
 	digest  digest.Digest
 	hashers []*verifModelHasher
 }
 
-func verifNewRef(n int) *verifRef {
-	r := &verifRef{n: n, data: vnd.Bytes(n)}
+// verifNewBogusRef: a digest of size n whose hash is the hash of no content at all.
+func verifNewBogusRef(n int) *verifRef { return verifNewRefKind(n, true) }
+
+func verifNewRef(n int) *verifRef { return verifNewRefKind(n, false) }
+
+func verifNewRefKind(n int, bogus bool) *verifRef {
+	r := &verifRef{n: n, data: vnd.Bytes(n), bogus: bogus}
 	r.digest = digest.MustNewDigest("", remoteexecution.DigestFunction_MD5, verifRefHashHex, int64(n))
 	expected := r.digest.GetHashBytes()
 	digest.VerifSetHasherFactory(remoteexecution.DigestFunction_MD5, func(int64) hash.Hash {
-		h := &verifModelHasher{ref: r.data, expected: expected}
+		h := &verifModelHasher{ref: r.data, expected: expected, bogus: bogus}
 		r.hashers = append(r.hashers, h)
 		return h
 	})
